@@ -153,6 +153,7 @@ func c16Cases(thorough bool) []c16Case {
 		{"absent", "absent", "absent", "absent"}, {"base", "base", "base", "base"}, {"cont", "cont", "cont", "cont"},
 		{"cont-delegated", "cont-delegated", "cont-delegated", "cont-delegated"}, {"delayed", "delayed", "delayed", "delayed"},
 		{"cont", "absent", "delayed", "cont-delegated"}, {"base", "cont-delegated", "cont", "absent"},
+		{"cont-dst", "cont", "cont-dst", "absent"},
 	}
 	nm, nd := len(c16Minters()), len(c16Distrs())
 	add := func(op, o2 []c16Pool, vt bool, acc [4]string, mi, di int) {
@@ -214,7 +215,9 @@ func toV2(ps []c16Pool, t0 time.Time) []*v2.VestingPool {
 	return out
 }
 
-func c16Run(w *harness.World, cs c16Case, st *c16Stats, report func(sig, what string)) {
+// c16After, when set, is called with the state right after a successful upgrade (used by C11's
+// replicas to take a digest of what the handler wrote).
+func c16Run(w *harness.World, cs c16Case, st *c16Stats, report func(sig, what string), c16After ...func(ctx sdk.Context)) {
 	atomic.AddInt64(&st.cases, 1)
 	app := w.App
 	ctx := harness.Branch(w.Root())
@@ -318,6 +321,10 @@ func c16Run(w *harness.World, cs c16Case, st *c16Stats, report func(sig, what st
 		switch kind {
 		case "cont", "cont-delegated":
 			acc = vestingtypes.NewContinuousVestingAccountRaw(vestingtypes.NewBaseVestingAccount(bacc, ov, t0+2*365*86400), t0-86400)
+		case "cont-dst":
+			// start and end next to daylight-saving switches of common time zones: a one-year shift done in
+			// a node's local calendar would depend on the zone (2023-03-28 12:00 UTC, 2025-10-26 00:30 UTC)
+			acc = vestingtypes.NewContinuousVestingAccountRaw(vestingtypes.NewBaseVestingAccount(bacc, ov, 1761438600), 1680004800)
 		case "delayed":
 			acc = vestingtypes.NewDelayedVestingAccountRaw(vestingtypes.NewBaseVestingAccount(bacc, ov, t0+365*86400))
 		}
@@ -362,6 +369,9 @@ func c16Run(w *harness.World, cs c16Case, st *c16Stats, report func(sig, what st
 	if panicked != "" {
 		report("upgrade-panics:"+repoFrame(panicked), "the upgrade handler failed: "+firstLine(panicked))
 		return
+	}
+	for _, f := range c16After {
+		f(ctx)
 	}
 
 	// --- oracles ----------------------------------------------------------------------------------
@@ -469,7 +479,7 @@ func c16Run(w *harness.World, cs c16Case, st *c16Stats, report func(sig, what st
 			if cur != nil {
 				report("account-created", fmt.Sprintf("account %s was created by the upgrade", a))
 			}
-		case "cont", "cont-delegated":
+		case "cont", "cont-delegated", "cont-dst":
 			va, ok := cur.(*vestingtypes.ContinuousVestingAccount)
 			if !ok {
 				report("account-type-changed", fmt.Sprintf("account %s is %T after the upgrade", a, cur))
